@@ -33,6 +33,7 @@ def run(chk) -> None:
     )
     chk.trusted = ["CPython ast", "functools.cached_property writes only its own slot", "external calls (pulp, graphviz, re) do not mutate BpSeq state"]
     chk.assumptions = ["callers outside the library do not mutate returned containers"]
+    chk.robust |= {"receiver-write", "cache-introspection", "pk-class", "isolated-select", "isolated-unpair", "isolated-copy", "foreign-write"}
     eng = Effects(repo)
     n_methods = 0
     for fi in sorted(repo.module(MOD).funcs.values(), key=lambda f: f.node.lineno):
@@ -56,15 +57,34 @@ def run(chk) -> None:
                 key=f"{MOD}:{fi.qualname}:{norm(stmt)[:80]}",
             )
     chk.floor("receiver-write", 25)
+    # ---- answers must not depend on which cached properties happen to be filled -------------------------------
+    n_cls = 0
+    for fi in sorted(repo.module(MOD).funcs.values(), key=lambda f: f.node.lineno):
+        if fi.cls is None or fi.cls.name not in CLASSES:
+            continue
+        n_cls += 1
+        for n in ast.walk(fi.node):
+            hit = None
+            if isinstance(n, ast.Attribute) and n.attr == "__dict__" and isinstance(n.value, ast.Name) and n.value.id == "self":
+                hit = "self.__dict__"
+            elif isinstance(n, ast.Call) and isinstance(n.func, ast.Name) and n.func.id == "vars" and n.args and norm(n.args[0]) == "self":
+                hit = "vars(self)"
+            if hit:
+                chk.violation("cache-introspection", fi.site(n), f"`{hit}` is read: functools.cached_property keeps its answers there, so the result depends on which properties were asked for earlier - an interleaving of calls no longer answers like a fresh copy", key=f"{MOD}:{fi.qualname}:cache-introspection")
+    chk.ok("cache-introspection", f"{n_cls} methods", "no method inspects the instance dictionary (the cached_property store)")
 
     # ---- without_pseudoknots ---------------------------------------------------------------
     wp = repo.func(MOD, "DotBracket.without_pseudoknots")
     chk.note_function(wp)
+    from sa.consteval import Folder
+    from sa.defuse import Inliner
+
     subs = astq.calls(wp.node, "sub")
-    if len(subs) != 1 or len(subs[0].args) != 3 or not isinstance(subs[0].args[0], ast.Constant):
-        chk.error("pk-class", wp.where, "re.sub(pattern, '.', self.structure) not found")
+    pat = Folder(repo, MOD).try_fold(Inliner(wp.node).inline(subs[0].args[0], FlowMap(wp.node).stmt_of(subs[0]))) if len(subs) == 1 and len(subs[0].args) == 3 else None
+    if not isinstance(pat, str):
+        chk.error("pk-class", wp.where, "re.sub(pattern, '.', self.structure) with a constant pattern not found")
     else:
-        classes = c01.regex_classes(subs[0].args[0].value)
+        classes = c01.regex_classes(pat)
         want = set(c01.REF_OPEN[1:] + c01.REF_CLOSE[1:])
         chk.expect(
             len(classes) == 1 and classes[0] == want,
@@ -97,7 +117,7 @@ def run(chk) -> None:
     chk.note_function(bwp)
     rets = [r for r in ast.walk(bwp.node) if isinstance(r, ast.Return)]
     chk.expect(
-        len(rets) == 1 and astq.match(rets[0].value, "BpSeq.from_dotbracket(self.dot_bracket.without_pseudoknots())") is not None,
+        len(rets) == 1 and astq.match(Inliner(bwp.node).inline(rets[0].value, rets[0]), "BpSeq.from_dotbracket(self.dot_bracket.without_pseudoknots())") is not None,
         "pk-via-dotbracket",
         bwp.where,
         "pairs kept = pairs the structure's own dot-bracket writes with round brackets",
@@ -110,34 +130,60 @@ def run(chk) -> None:
     chk.note_function(wi)
     fm = FlowMap(wi.node)
     env = SymEnv(wi.node)
-    loops = [l for l in wi.node.body if isinstance(l, ast.For)]
-    apps = [c for c in astq.calls(wi.node, "append") if astq.dotted(c.func.value) == "to_unpair"]
-    stem_loop = [l for l in loops if any(any(a is n for n in ast.walk(l)) for a in apps)]
-    ok = False
-    found = [norm(a) for a in apps]
-    if len(stem_loop) == 1 and isinstance(stem_loop[0].target, ast.Name) and len(apps) == 2:
-        s = stem_loop[0].target.id
-        src = atom_of(env.ev(stem_loop[0].iter))
-        src_ok = src == ("item", 0, ("attr", "elements", ("param", "self")))
-        e2 = env.with_(**{s: Aff.of(("STEM",))})
-        vals = {e2.ev(a.args[0]) for a in apps}
-        want = {Aff.of(("attr", "first", ("attr", "strand5p", ("STEM",)))) - Aff.c(1), Aff.of(("attr", "first", ("attr", "strand3p", ("STEM",)))) - Aff.c(1)}
-        guards = [facts(fm.guards_within(fm.stmt_of(a), stem_loop[0])) for a in apps]
-        g_ok = all(len(g) == 1 and g[0].polarity and norm(g[0].test) in (f"{s}.strand5p.first == {s}.strand5p.last", f"{s}.strand5p.last == {s}.strand5p.first", f"{s}.strand3p.first == {s}.strand3p.last") for g in guards)
-        skip = [n for st in stem_loop[0].body for n in ast.walk(st) if isinstance(n, (ast.Break, ast.Continue))]
-        ok = src_ok and vals == want and g_ok and not skip
-    if not (len(stem_loop) == 1 and len(apps) == 2):
-        chk.error("isolated-select", wi.where, "selection idiom not recognised (expected one loop over the stems appending both ends to to_unpair)")
+    inl = Inliner(wi.node)
+    # every `entries[IDX].pair = 0`, traced back to (index expression over a stem, condition on the stem)
+    def stems_source(it: ast.AST, at) -> bool:
+        e = inl.inline(it, at, stop=("self",))
+        return norm(e) in ("self.elements[0]",) or atom_of(env.ev(it)) == ("item", 0, ("attr", "elements", ("param", "self")))
+
+    ISO = lambda x: (f"{x}.strand5p.first == {x}.strand5p.last", f"{x}.strand5p.last == {x}.strand5p.first", f"{x}.strand3p.first == {x}.strand3p.last", f"{x}.strand3p.last == {x}.strand3p.first")
+    selected = []  # (index text with STEM, ok-condition?)
+    problems = []
+    unp = [s2 for s2 in ast.walk(wi.node) if isinstance(s2, ast.Assign) and astq.match(s2, "entries[I_].pair = 0") is not None]
+    for u in unp:
+        idx = astq.match(u, "entries[I_].pair = 0")["I_"]
+        lp = fm.of(u).loops
+        if len(lp) != 1 or not isinstance(lp[0].target, ast.Name) or fm.guards_within(u, lp[0]):
+            problems.append(f"`{norm(u)}` is not in one unguarded loop")
+            continue
+        v = lp[0].target.id
+        src = lp[0].iter
+        srcd = inl.reaching(src.id, lp[0]) if isinstance(src, ast.Name) else None
+        if norm(idx) == v and isinstance(src, ast.Name):
+            # form (a): positions collected earlier
+            apps = [c for c in astq.calls(wi.node, "append") if astq.dotted(c.func.value) == src.id and c.args]
+            for a in apps:
+                st = fm.stmt_of(a)
+                sl = [l for l in fm.of(st).loops]
+                if len(sl) != 1 or not isinstance(sl[0].target, ast.Name) or not stems_source(sl[0].iter, sl[0]):
+                    problems.append(f"`{norm(a)}` is not inside one loop over the stems")
+                    continue
+                x = sl[0].target.id
+                g = facts(fm.guards_within(st, sl[0]))
+                cond_ok = len(g) == 1 and g[0].polarity and norm(g[0].test) in ISO(x)
+                if any(isinstance(n, (ast.Break, ast.Continue)) for b in sl[0].body for n in ast.walk(b)):
+                    cond_ok = False
+                selected.append((norm(a.args[0]).replace(x + ".", "STEM."), cond_ok, [norm(t.test) for t in g]))
+        elif isinstance(srcd, (ast.ListComp, ast.GeneratorExp)) and len(srcd.generators) == 1 and isinstance(srcd.generators[0].target, ast.Name):
+            # form (b): loop over the isolated stems themselves
+            gx = srcd.generators[0]
+            x = gx.target.id
+            cond_ok = norm(srcd.elt) == x and stems_source(gx.iter, inl.stmt_of_value(srcd) or lp[0]) and len(gx.ifs) == 1 and norm(gx.ifs[0]) in ISO(x)
+            selected.append((norm(idx).replace(v + ".", "STEM."), cond_ok, [norm(c2) for c2 in gx.ifs]))
+        else:
+            problems.append(f"source `{norm(src)}` of the unpairing loop not understood")
+    want = {"STEM.strand5p.first - 1", "STEM.strand3p.first - 1"}
+    if problems or not selected:
+        chk.error("isolated-select", wi.where, "selection idiom not recognised: " + "; ".join(problems[:2] or ["no `entries[i].pair = 0` found"]))
     else:
-      chk.expect(
-        ok,
-        "isolated-select",
-        wi.where,
-        "both ends (0-based) of every stem of length one are selected for unpairing",
-        "the positions to unpair are not exactly strand5p.first-1 and strand3p.first-1 of every stem with first == last",
-        K(wi, "select"),
-        found=found,
-      )
+        got = {t for t, ok2, g in selected}
+        conds_ok = all(ok2 for t, ok2, g in selected)
+        if got != want:
+            chk.violation("isolated-select", wi.where, f"the positions unpaired are {sorted(got)} of a stem, not both of its ends (strand5p.first - 1 and strand3p.first - 1): an isolated pair is left half-paired or a wrong nucleotide is unpaired", K(wi, "select"), expected=sorted(want), found=sorted(got))
+        elif not conds_ok:
+            chk.violation("isolated-select", wi.where, f"positions are selected under {[g for t, ok2, g in selected]}, not exactly for the stems of length one (first == last)", K(wi, "select-cond"), found=[g for t, ok2, g in selected])
+        else:
+            chk.ok("isolated-select", wi.where, "both ends (0-based) of every stem of length one are selected for unpairing")
     # entries: fresh Entry per entry
     e_def = astq.first_assign(wi.node, "entries")
     fresh = False
@@ -157,18 +203,20 @@ def run(chk) -> None:
         K(wi, "copy"),
         found=norm(e_def) if e_def is not None else None,
     )
-    unp = [s for s in ast.walk(wi.node) if isinstance(s, ast.Assign) and astq.match(s, "entries[I_].pair = 0") is not None]
-    ok = False
-    if len(unp) == 1:
-        lp = fm.of(unp[0]).loops
-        ok = len(lp) == 1 and astq.match(lp[0].iter, "to_unpair") is not None and norm(lp[0].target) == norm(astq.match(unp[0], "entries[I_].pair = 0")["I_"]) and not fm.guards_within(unp[0], lp[0])
-    chk.expect(ok, "isolated-unpair", wi.where, "every selected position gets pair = 0", "not every selected position is set to pair = 0 (and nothing else)", K(wi, "unpair"))
+    chk.expect(bool(unp) and not problems, "isolated-unpair", wi.where, "every selected position gets pair = 0", "not every selected position is set to pair = 0 (and nothing else)", K(wi, "unpair"))
     rets = [r for r in astq.walk_no_nested(wi.node) if isinstance(r, ast.Return)]
     r_ok = all(r.value is not None and (astq.match(r.value, "self") is not None or astq.match(r.value, "BpSeq(entries)") is not None) for r in rets) and any(astq.match(r.value, "BpSeq(entries)") is not None for r in rets)
     for r in rets:
         if astq.match(r.value, "self") is not None:
             g = facts(fm.of(r).guards)
-            r_ok = r_ok and any(norm(x.test) == "to_unpair" and x.polarity is False or norm(x.test) == "not to_unpair" and x.polarity for x in g)
+            def empty_fact(x):
+                t = norm(x.test)
+                for nm in ("to_unpair", "isolated"):
+                    if (t == nm and x.polarity is False) or (t in (f"not {nm}", f"len({nm}) == 0") and x.polarity) or (t in (f"len({nm}) > 0", f"len({nm}) != 0") and x.polarity is False):
+                        return True
+                return False
+
+            r_ok = r_ok and any(empty_fact(x) for x in g)
     chk.expect(r_ok, "isolated-result", wi.where, "returns BpSeq(entries), or self when nothing is isolated", "result is not BpSeq(<copied entries>) / self only when nothing is to unpair", K(wi, "result"))
 
 
